@@ -35,9 +35,62 @@ Definition enc_sig (rs : point * Z) : val := vres_b (schnorr_serialize (fst rs) 
 Definition with_tree (sha : bytes -> bytes) (r : result taptree) : val :=
   vres (fun t => VL [enc_tree t; vres_b (tree_hash sha t)]) r.
 
+(* Tx.sig_hash(input_index, hash_type) as a table [[hash_type, msg], ...] computed by the harness from the
+   transaction; a hash type that is not listed raises *)
+Fixpoint lookup_sighash (tbl : list val) (ht : Z) : result bytes :=
+  match tbl with
+  | VL [VI h; VB m] :: r => if h =? ht then Ok m else lookup_sighash r ht
+  | _ :: r => lookup_sighash r ht
+  | [] => Err
+  end.
+
+(* tap_script of a TxIn: VL [] = None | VL [VL points] *)
+Definition dec_opt_points (v : val) : option (option (list point)) :=
+  match v with
+  | VL [] => Some None
+  | VL [VL pts] => match dec_list dec_point pts with Some ps => Some (Some ps) | None => None end
+  | _ => None
+  end.
+Definition enc_opt_points (o : option (list point)) : val := vopt (fun ps => VL (map enc_point ps)) o.
+
 Definition dispatch (H : oracle) (fn : list Z) (args : list val) : val :=
   let sha := o_sha256 H in
-  if fn_is "sort_bytes" fn then
+  if fn_is "multisig_points" fn then
+    match args with
+    | [VL pts] => match dec_list dec_point pts with
+                  | Some ps => vres (fun l => VL (map enc_point l)) (multisig_points K ps) | None => bad_args end
+    | _ => bad_args end
+  else if fn_is "initialize" fn then
+    (* witness items, tap_script before the call, control block, kind of tap script (0 MultiSigTapScript(points, k),
+       1 MuSigTapScript(points), 2 P2PKTapScript(points[0])) -> [items, tap_script.points or None, raised] *)
+    match args with
+    | [VL items; prior; cb; VI kind; VL pts; VI k] =>
+        match vals_bytes items, dec_opt_points prior, dec_cb cb, dec_list dec_point pts with
+        | Some it, Some pr, Some c, Some ps =>
+            let built : result (script * option (list point)) :=
+              if kind =? 0 then
+                cs <- multisig_cmds K NoLock ps k ;; mp <- multisig_points K ps ;; Ok (mk_script cs, Some mp)
+              else if kind =? 1 then cs <- musig_cmds K sha NoLock ps ;; Ok (mk_script cs, None)
+              else match ps with
+                   | p0 :: _ => Ok (mk_script [Push (xonly p0); Op 172], None)
+                   | [] => Err
+                   end in
+            vres (fun st_r : tap_in * bool =>
+                    VL [vbl (ti_items (fst st_r)); enc_opt_points (ti_points (fst st_r)); vbool (snd st_r)])
+                 ('(sc, mp) <- built ;; init_p2tr_multisig {| ti_items := it; ti_points := pr |} c sc mp)
+        | _, _, _, _ => bad_args end
+    | _ => bad_args end
+  else if fn_is "finalize" fn then
+    (* witness items, tap_script (None | points), sigs, sig_hash table -> [items, completed] *)
+    match args with
+    | [VL items; tp; VL sigs; VL tbl] =>
+        match vals_bytes items, dec_opt_points tp, vals_bytes sigs with
+        | Some it, Some pr, Some sg =>
+            vres (fun r : list bytes * bool => VL [vbl (fst r); vbool (snd r)])
+                 (finalize_p2tr_multisig K sha (lookup_sighash tbl) {| ti_items := it; ti_points := pr |} sg)
+        | _, _, _ => bad_args end
+    | _ => bad_args end
+  else if fn_is "sort_bytes" fn then
     match args with
     | [VL l] => match vals_bytes l with Some bs => vbl (sort_bytes bs) | None => bad_args end
     | _ => bad_args end
